@@ -470,14 +470,14 @@ idiff_strp(const char *str, char **on, size_t len)
  */
 	size_t i = 0U;
 	echs_idiff_t res = {0};
-	int dd = 0, msd = 0;
+	int64_t dd = 0, msd = 0;
 	bool negp = false;
 	bool seen_D_p = false;
 	bool seen_W_p = false;
 	/* a special stepping to combine 'H'-seen, 'M'-seen, 'S'-seen
 	 * based on their ASCII values, 0x1, 0x11, 9x111 */
 	uint8_t step = 0U;
-	unsigned int val;
+	int64_t val;
 
 	if (UNLIKELY(len < 3U)) {
 		goto out;
